@@ -24,7 +24,9 @@ EXPLANATION = (
     'the whole sequence is recorded and no evolution SQL is generated; '
     'R-C08.4 the applied / unapplied queries are scoped by app label and '
     'database; R-C08.5 the labels a batch executes are exactly the labels of '
-    'its graph nodes for that task.')
+    'its graph nodes for that task; R-C08.6 a batch never calls '
+    'task.execute() with a possibly-None sql (which would fall back to the '
+    'SQL of all pending evolutions of the task).')
 NOT_DECIDED = (
     'Exactly-once over histories of runs (needs executing several runs '
     'against one database).')
@@ -348,7 +350,45 @@ def r5_batch_labels(ctx):
                     'by the batch labels', key='custom-labels')
 
 
+def r6_no_fallback_to_task_sql(ctx):
+    """EvolveAppTask.execute(sql=None) means "run the whole task's SQL".  A
+    batch must therefore never call it with a possibly-missing value."""
+    ctx.rule('R-C08.6')
+    p = ctx.program
+    ex = p.func(TASK, 'EvolveAppTask.execute')
+    fallback = any(
+        isinstance(n, ast.If) and 'sql is None' in unparse(n.test) and
+        'self.sql' in unparse(n) for n in walk_no_nested(ex.node))
+    f = p.func(TASK, 'EvolveAppTask.execute_tasks')
+    g = ctx.cfg(f)
+    rd = ReachingDefs(g, f.params)
+    calls = [(n, c) for n, c in nodes_with_call(g, 'execute')
+             if kwarg(c, 'sql') is not None]
+    ctx.floor('task.execute(sql=...) calls in execute_tasks', len(calls), 1)
+    for n, c in calls:
+        v = kwarg(c, 'sql')
+        maybe_none = any(
+            isinstance(e, ast.Call) and call_name(e) == 'get' and
+            len(e.args) < 2 for _, e in rd.origins(n, v))
+        if not (fallback and maybe_none):
+            ctx.ok(f, 'the batch SQL handed to execute() cannot be None', c)
+            continue
+        tests = [t for t in g.nodes if t.kind == 'test' and
+                 unparse(t.ast) == unparse(v)]
+        if any(g.guarded_by(n, t, 'T') for t in tests):
+            ctx.ok(f, 'task.execute(sql=%s) only when the batch has SQL for '
+                   'that task' % unparse(v), c)
+        else:
+            ctx.finding(f, c, 'task.execute(sql=%s) can receive None (the '
+                        'batch has no SQL for the task): execute() then '
+                        'falls back to self.sql and re-runs every pending '
+                        'evolution of the task, including ones already '
+                        'executed in an earlier batch' % unparse(v),
+                        key='sql-none-fallback')
+
+
 def run(ctx):
+    r6_no_fallback_to_task_sql(ctx)
     r1_who_may_record(ctx)
     r2_one_accumulation(ctx)
     r3_label_provenance(ctx)
